@@ -124,6 +124,26 @@ func (f *Frame) doCall(st *State, site ssa.CallInstruction, common *ssa.CallComm
 	return f.unknownCall(st, common, "function value")
 }
 
+// assumeOldBelow: the reference parts of an extern result denote objects that existed before the call.
+func (f *Frame) assumeOldBelow(st *State, v *Val, lo int) {
+	c := f.c
+	in := func(r Term) Term { return And(ILe(IntLitI(0), RefRoot(r)), ILt(RefRoot(r), IntLitI(int64(lo)))) }
+	switch v.K {
+	case KScalar:
+		if v.T.Sort == SRef {
+			c.Assume(st.reach, in(v.T), "extern result existed before the call")
+		}
+	case KSlice:
+		c.Assume(st.reach, in(v.Base), "extern result existed before the call")
+	case KIface:
+		c.Assume(st.reach, in(v.Pay), "extern result existed before the call")
+	case KTuple:
+		for _, x := range v.F {
+			f.assumeOldBelow(st, x, lo)
+		}
+	}
+}
+
 // pureExtern: the result of a pure accessor as an uninterpreted function of receiver and scalar arguments.
 func (c *Ctx) pureExtern(name string, recv *Val, args []*Val, rt types.Type) *Val {
 	if rt == nil {
@@ -149,7 +169,12 @@ func (c *Ctx) pureExtern(name string, recv *Val, args []*Val, rt types.Type) *Va
 	case *types.Interface:
 		_ = u
 		return &Val{K: KIface, Ty: rt, Tag: mk(".tag", SInt), Pay: mk(".pay", SRef)}
-	case *types.Slice, *types.Struct, *types.Tuple, *types.Array:
+	case *types.Slice:
+		ln := mk(".len", c.idxSort)
+		cp := mk(".cap", c.idxSort)
+		c.Assume(TTrue, And(c.idxLe(c.idxLit(0), ln), c.idxLe(ln, cp), c.idxLt(cp, c.idxLit(1<<48))), "slice result of a pure accessor is well formed")
+		return &Val{K: KSlice, Ty: rt, Base: mk(".base", SRef), Off: mk(".off", c.idxSort), Len: ln, Cap: cp}
+	case *types.Struct, *types.Tuple, *types.Array:
 		return nil
 	}
 	sortName := c.scalarSort(rt)
@@ -254,6 +279,12 @@ func (f *Frame) callStatic(st *State, site ssa.CallInstruction, common *ssa.Call
 	if m, ok := c.W.models[key]; ok {
 		return m(f, st, site, args)
 	}
+	if why, ok := c.W.externFrames[key]; ok && c.W.externPure[key] && len(args) > 0 {
+		c.W.noteAssumed("extern " + key + " is a pure accessor (its result is a function of the receiver and arguments): " + why)
+		if r := c.pureExtern(key, args[0], args[1:], resultType(common)); r != nil {
+			return r
+		}
+	}
 	if why, ok := c.W.externFrames[key]; ok {
 		c.W.noteAssumed("extern " + key + " leaves the verified heap unchanged, result unconstrained: " + why)
 		lo := birthBase + c.nextObj + 1
@@ -262,6 +293,9 @@ func (f *Frame) callStatic(st *State, site ssa.CallInstruction, common *ssa.Call
 			r := c.freshVal("ext."+callee.Name(), rt)
 			if c.W.externFresh[key] {
 				f.assumeFreshIn(st, r, lo)
+			}
+			if c.W.externOld[key] {
+				f.assumeOldBelow(st, r, lo)
 			}
 			return r
 		}
